@@ -679,6 +679,19 @@ pub fn c12_strategy(transports: BoxedStrategy<Transport>) -> BoxedStrategy<ConvC
                 reads.push(if blen > 0 && (mask >> 26) & 1 == 1 { ReadPlan::ToEof { buf: 700, extra: 0 } } else { ReadPlan::None });
                 conv.reqs.push(build_req(i as u32, method.into(), String::new(), version, headers, framing, None, mask as usize, mask, conn, false));
             }
+            // now and then a request of a protocol version the server does not speak sits in the
+            // pipeline, carrying `Connection: close` / `upgrade`: it is answered 505 and ends nothing
+            if let Some(first) = conv.reqs.first() {
+                let m = first.headers.len() * 31 + first.path.len() * 7 + conv.reqs.len();
+                if m % 6 == 0 {
+                    let at = m % (conv.reqs.len() + 1);
+                    let mut r = ReqSpec::simple(100 + at as u32);
+                    r.headers.push(Hdr::new("Connection", ["close", "upgrade", "Close"][m % 3]));
+                    r.mal = Some(Malform::VersionToken(["HTTP/2.0", "HTTP/3.0"][m % 2].to_string()));
+                    conv.reqs.insert(at, r);
+                    reads.insert(at, ReadPlan::None);
+                }
+            }
             conv.trailing = match trailing_kind {
                 1 => b"GET /trailing-garbage".to_vec(),
                 2 => b"\x00\x01garbage\r\n\r\n".to_vec(),
